@@ -31,7 +31,7 @@ pub struct ABlock {
 pub struct Layout {
     pub crlf: bool,
     pub order: u8,     // 0 file, 1 reversed, 2 rotated
-    pub numfmt: u8,    // 0 shortest, 1 %f (6 decimals), 2 right-aligned width 14, 3 exponent with explicit sign (7e+00)
+    pub numfmt: u8,    // 0 shortest, 1 %f (6 decimals), 2 right-aligned width 14, 3 exponent with explicit sign (7e+00), 4 shortest with an explicit plus sign on positive numbers
     pub quote_words: bool,
     pub lists: u8,     // 0 one line, 1 broken after every comma, 2 broken + closing paren on its own line, 3 broken before every comma
     pub comments: u8,  // 0 none, 1 between blocks, 2 between and inside blocks (+ blank lines)
@@ -44,7 +44,7 @@ impl Layout {
         let mut v = vec![];
         for crlf in [false, true] {
             for order in 0..3 {
-                for numfmt in 0..4 {
+                for numfmt in 0..5 {
                     for quote_words in [false, true] {
                         for lists in 0..4 {
                             for comments in 0..3 {
@@ -79,6 +79,14 @@ pub fn fmt_num(x: f32, numfmt: u8) -> String {
         2 => {
             let s = if x == x.trunc() && x.abs() < 1e7 { format!("{}", x as i64) } else { format!("{}", x) };
             format!("{:>14}", s)
+        }
+        4 => {
+            let s = if x == x.trunc() && x.abs() < 1e7 { format!("{}", x as i64) } else { format!("{}", x) };
+            if x > 0.0 {
+                format!("+{}", s)
+            } else {
+                s
+            }
         }
         _ => {
             // exponent notation with an explicit exponent sign, as in `VAPOUR-DIFFUSIVITY-FACTOR = 1e+30` of the legacy files
